@@ -101,6 +101,8 @@ func allChecks() []*Check {
 					Asserts: []string{"GetNick", "GetChannel", "IsOn", "Me", "tracked-sets", "invariant", "requests-issued", "requests-count"}},
 				{Pkg: "client", Func: "VerifC13Arbitrary", Quick: map[string]int{"NU": 1, "NC": 1, "NA": 2}, Thorough: map[string]int{"NU": 2, "NC": 1, "NA": 2},
 					Asserts: []string{"client-still-tracked", "no-channel-without-the-client", "no-user-without-shared-channel"}},
+				{Pkg: "client", Func: "VerifC13Truncated", Sched: true, Quick: map[string]int{"SW": 1}, Thorough: map[string]int{"SW": 2},
+					Asserts: []string{"truncated:disconnected", "truncated:fragment-not-applied"}, Note: "the server hangs up mid-line: the fragment is not a message"},
 			},
 			Bounds:      map[string]string{"quick": "pre-state: any conformant network state over the client + 1 other user x 2 channels (names 1 symbolic byte, privileges/modes/topics/details symbolic), tracker built directly as its view; one event of {own JOIN + NAMES with prefixes (+332, +324), other's JOIN (known/new), PART with/without message, KICK with a comment / an empty one / none, QUIT with/without message, NICK, channel MODE (privilege / flags / +kl / -l), TOPIC, 352, own user MODE}; arbitrary lines: 15 handled verbs with source and 0..2 arguments drawn from the universe's names, fixed oddities or a symbolic byte", "thorough": "events: 2 other users x 2 channels; arbitrary lines: 2 other users x 1 channel, 0..2 arguments (2 users x 1 channel x 0..3 arguments ran clean once in 31 min, 3.4 M paths, and is not the registered bound)"},
 			Outside:     []string{"larger universes (sessions are unbounded by induction over the conformant-state invariant)", "user modes inferred from WHO flags, -k followed by further arguments (as in the property)", "NAMES lists of more than three entries"},
